@@ -80,7 +80,32 @@ func H_C14seq(i, j int) {
 	verif.Assert(r5 == r1, "the result depends on map iteration order")
 	// (compared entry by entry: ranging over the map here would multiply the permutations explored)
 	verif.Assert(len(params) == 4 && params["p"] == "$1" && params["b"] == "{b:String}" && params["p "] == "$7" && params[" p"] == "$8", "Compile modified the caller's parameter map")
+	// an empty (non-nil) caller map stays empty, and a later call does not see an earlier call's lets
+	e := map[string]string{}
+	eo := &pql.CompileOptions{Parameters: e}
+	compileRes(eo, "let x = 1; let p = x; T | take x")
+	verif.Assert(len(e) == 0, "Compile modified the caller's (empty) parameter map")
+	verif.Assert(compileRes(eo, "T | where x > p") == compileRes(nil, "T | where x > p"), "a let of an earlier call is visible to a later call with the same options")
 	verif.Cover("history-checked")
+}
+
+// PermSources are programs whose compilation iterates over maps with several entries
+// (reserved names that meet the generated ones, several parameters).
+var PermSources = []string{
+	"T | as __subquery1 | where a | as __subquery1_",
+	"T | as __subquery0 | as __subquery0_ | count | count",
+	"T | as __subquery0_ | where a | as __subquery0 | where b | as __subquery1 | count",
+	"A | join kind=zz (B) on k",
+}
+
+// H_C14perm: the result does not depend on the iteration order of any map (symbolic permutation).
+func H_C14perm(k int) {
+	opts := &pql.CompileOptions{Parameters: map[string]string{"p": "$1", "q": "$2", "__subquery1": "x"}}
+	r0 := compileRes(opts, PermSources[k])
+	verif.PermuteMaps()
+	r1 := compileRes(opts, PermSources[k])
+	verif.Assert(r0 == r1, "the result depends on map iteration order")
+	verif.Cover("permutations-checked")
 }
 
 // HistSources are further programs of the call-history check: ones whose user-chosen names
